@@ -21,6 +21,7 @@ def _perm_query(pid, m, n, pat, ispec):
 
 LOW4 = [(1, 0), (2, 0), (3, 0), (2, 1), (3, 1), (3, 2)]
 P4 = [[(2, 0), (3, 0), (2, 1)], [(2, 0), (2, 1), (3, 2)], [(3, 0), (3, 1), (3, 2)], [(1, 0), (3, 2)], [(2, 1)], [(1, 0), (2, 1), (3, 2)]]
+PC4 = [(0, 1, 2, 3), (3, 2, 1, 0), (1, 3, 0, 2), (2, 0, 3, 1), (0, 2, 1, 3), (3, 0, 2, 1)]
 PC5 = [(0, 1, 2, 3, 4), (4, 3, 2, 1, 0), (2, 0, 3, 1, 4), (1, 4, 0, 2, 3)]
 def flip(ents, sym):
     """column-etree mode: every other entry goes above the diagonal (the symmetric mode only sees A+A^T)"""
@@ -91,7 +92,20 @@ def plan(tier, seed, pid='C10', sym_only=False):
         p4 = [lowpat(4, flip(e, sym)) for e in P4]
         if tier == 'thorough':
             p4 += [lowpat(4, flip([(i, j) for t, (i, j) in enumerate(LOW4) if (m >> t) & 1], sym)) for m in range(64)]
-        qs += [colorder_query(pid, 4, pat, sym, 1 + k % 4, timeout=1800) for k, pat in enumerate(sorted(set(p4)))]
+        if sym:
+            for k, pat in enumerate(sorted(set(p4))):
+                q = colorder_query(pid, 4, pat, sym, 1 + k % 4, timeout=1800)
+                q.witness_defs = {'PCFIX': '0x3210'}   # reachability twin with one concrete permutation (the symbolic one does not finish as a satisfiable query)
+                qs.append(q)
+        else:
+            # column-etree mode at n=4: the symbolic-permutation query exceeds the memory cap (A^T*A structure, qrnzcnt); concrete permutations
+            for k, pat in enumerate(sorted(set(p4))):
+                for pc in PC4[k % 2::2]:
+                    q = colorder_query(pid, 4, pat, sym, 1 + k % 4)
+                    q.defs['PCFIX'] = '0x' + ''.join('%x' % d for d in reversed(pc)); q.name += '.pc' + ''.join(map(str, pc))
+                    q.group = 'sp_colorder n=4, concrete permutation, column etree'
+                    q.witness = (k % 3 == 0)
+                    qs.append(q)
         # n=5, concrete input permutations (structure fully concrete: decided by constant propagation)
         low5 = [(i, j) for j in range(5) for i in range(j + 1, 5)]
         m5 = list(range(1024)) if tier == 'thorough' else rnd.sample(range(1024), 40)
@@ -108,7 +122,7 @@ META = {
     'level': 'model_checking',
     'engines': 'E1: cbmc 6.11 bit-precise, MiniSat',
     'bounds': {'get_perm_c': 'options 0..2 (natural, MMD on A^T*A, MMD on A^T+A); every m x n pattern with m,n <= 2 and (quick: 60 sampled, thorough: all) patterns with m,n <= 3 incl. rectangular, empty rows/columns; plus 40 (thorough 400) concrete n=7..8 graphs built from isolated vertices, edges, paths, stars, triangles, cliques under random relabelling',
-               'sp_colorder': 'n<=4 with the input permutation symbolic (all n! bijections in one query): n=2 all patterns, n=3 quick 8 sampled per mode / thorough all 512, n=4 six forests (two-child parent, chain, star, isolated columns; thorough + all 64 lower patterns); n=5 with 4 concrete permutations on 40 (thorough 1024) full-diagonal patterns; symmetric mode on/off, max supernode size 1..5; in symmetric mode the reported counts equal the Cholesky column counts and reported supernodes nest'},
+               'sp_colorder': 'n<=4 with the input permutation symbolic (all n! bijections in one query): n=2 all patterns, n=3 quick 8 sampled per mode / thorough all 512, n=4 six forests (two-child parent, chain, star, isolated columns; thorough + all 64 lower patterns) - symbolic permutation in symmetric mode, three concrete permutations each in column-etree mode (the symbolic query exceeds the memory cap there); n=5 with 4 concrete permutations on 40 (thorough 1024) full-diagonal patterns; symmetric mode on/off, max supernode size 1..5; in symmetric mode the reported counts equal the Cholesky column counts and reported supernodes nest'},
     'outside': ['option 3 (COLAMD): colamd.c carves its Row/Col records out of one int array by casts; symbolic execution of even a 2x2 instance did not finish in 600 s, so colamd.c is NOT encoded and nothing is claimed about it', 'n > 3', 'METIS orderings (not in this build)'],
     'assumptions': ['reference elimination tree computed in the harness by quadratic symbolic Cholesky on the boolean structure'],
     'trusted_base': ['cbmc 6.11', 'MiniSat'],
